@@ -564,9 +564,11 @@ def _in_inner_loop(fn, block, inner_next_block):
 # C09.R2 the two-stage scan
 # ---------------------------------------------------------------------------
 
-def _scan_shape(fn, pred_names):
-    """recognise `for &c in input.iter().skip(i) { if !pred(c) { return X } } Y`:
-    returns dict(pred, fail=origin description, done=origin description, skip=canon, source_ok) or None"""
+def _scan_shape(fn, f):
+    """recognise `for &c in input.iter().skip(i) { if !pred(c) { return X } } Y`.
+    The byte test is not matched by name: the region between the element binding and the test's
+    switch is folded for all 256 byte values, giving the accepted byte set."""
+    from . import fold
     rets = []
     for b in fn.blocks:
         if b["cleanup"]:
@@ -582,9 +584,7 @@ def _scan_shape(fn, pred_names):
         return None
     nx = nexts[0]
     ndef = [d for d in fn.defs()[0] if d.kind == "calldest" and d.point == nx.point][0]
-    kind = loop_kind2(fn, ndef.id)
-    out = {"iter": None, "skip": None}
-    # iterator = skip(iter(input), n) | iter(input)
+    out = {}
     d = def_of(fn, ndef.id)
     it = fn.origins(d.call["args"][0], d.point)
     src = fn.origins({"k": "copy", "p": {"l": it[0].info.rv["p"]["l"], "proj": []}}, d.point, hide_weak=True) if len(it) == 1 and it[0].kind == "ref" else []
@@ -599,32 +599,62 @@ def _scan_shape(fn, pred_names):
     out["chain"] = [c[0] for c in chain]
     out["skip"] = next((c[1][0] for c in chain if c[0] == "skip"), ("K", 0, "usize"))
     out["source"] = chain[-1][2] if chain else None
-    _ = kind
+    # the element local: `c = *payload`
+    elem_local = None
+    some_block = None
+    for b in fn.blocks:
+        if b["cleanup"]:
+            continue
+        for i, st in enumerate(b["stmts"]):
+            if st["k"] == "assign" and not st["p"]["proj"] and fn.locals[st["p"]["l"]]["ty"] == "u8":
+                e = unname(strip_refs(fn.canon_rv(st["rv"], (b["id"], i), 0, None)))
+                if e == ("field", ("downcast", ("def", ndef.id), "Some"), 0):
+                    elem_local, some_block, some_idx = st["p"]["l"], b["id"], i
+    if elem_local is None:
+        return None
+    # the test: the first bool switch dominated by the element binding, inside the loop
+    body = fn.natural_loop(nx.block)
+    tests = [b for b in sorted(body) if fn.bool_test(b) and fn.dominates(some_block, b)]
+    if len(tests) != 1:
+        return None
+    tb = tests[0]
+    cond, tt, ft, tpt = fn.bool_test(tb)
+    F = fold.Folder(f)
+    accepted = set()
+    undecided = False
+    for v in range(256):
+        r = F.run(fn.path, [], start=(some_block, some_idx + 1), env={elem_local: fold.mk_int("u8", v)}, stop_block=tb)
+        if r.kind == "stop" and isinstance(r.value, dict) and r.value.get("switch", fold.TOP) != fold.TOP and r.value["switch"][0] == "bool":
+            if r.value["switch"][1]:
+                accepted.add(v)
+        else:
+            undecided = True
+    out["test_true_bytes"] = None if undecided else accepted
     for pt, rv, call in rets:
         sg = fn.switch_guards(pt[0])
-        bg = fn.guards_of(pt[0])
         exhausted = any(cd[0] == "discr" and cd[1] == ("def", ndef.id) and how == ("eq", 0) for cd, how, s in sg)
-        predfail = None
-        for cd, pol, s in bg:
-            if cd[0] == "def" and pol is False:
-                nm = call_name_of_def(fn, cd[1])
-                if nm in pred_names:
-                    pd = def_of(fn, cd[1])
-                    arg = unname(strip_refs(fn.canon(pd.call["args"][0], pd.point)))
-                    elem = ("field", ("downcast", ("def", ndef.id), "Some"), 0)
-                    if arg == elem or strip_refs(arg) == elem or arg == ("deref", elem):
-                        predfail = nm
+        pol = None
+        for cd, p_, s in fn.guards_of(pt[0]):
+            if s == tb:
+                pol = p_
         val = None
         if rv is not None and rv["k"] == "agg":
             val = ("variant", rv.get("variant"))
         elif call is not None:
             val = ("call", call.get("callee"), [fn.canon(a, pt) for a in call["args"]])
-        if exhausted and not predfail:
+        if exhausted and pol is None:
             out["done"] = val
-        elif predfail:
+        elif pol is not None:
             out["fail"] = val
-            out["pred"] = predfail
-    return out if "done" in out and "fail" in out else None
+            out["fail_polarity"] = pol  # early return happens when the test is `pol`
+    if "done" not in out or "fail" not in out:
+        return None
+    if out["test_true_bytes"] is not None:
+        allb = set(range(256))
+        out["continue_bytes"] = out["test_true_bytes"] if out["fail_polarity"] is False else allb - out["test_true_bytes"]
+    else:
+        out["continue_bytes"] = None
+    return out
 
 
 def c09_r2(ctx, f):
@@ -643,14 +673,27 @@ def c09_r2(ctx, f):
               "the scan does not start at byte 0 of the input", found=[expr_str(x, be) for x in a], sample="%s(input, 0)" % first.split("::")[-1])
     s1 = f.fn(first)
     ctx.analysed(s1)
-    sh1 = _scan_shape(s1, {"core::num::<impl u8>::is_ascii_digit"})
+    sh1 = _scan_shape(s1, f)
     if not sh1:
-        ctx.abstain(rid, "first scan not in the recognised shape (loop with early return on a failed byte test)", where_fn(s1))
+        ctx.abstain(rid, "first scan not in the recognised shape (one loop with one byte test and an early return)", where_fn(s1))
         return
-    ok1 = sh1["done"] == ("variant", "Numeric") and sh1["pred"] == "core::num::<impl u8>::is_ascii_digit" and sh1["fail"][0] == "call"
+    digits = set(range(0x30, 0x3A))
+    alnum = {ord(ch) for ch in ref.ALNUM}
+
+    def show(bs):
+        return "".join(chr(b) if 32 < b < 127 else "\\x%02x" % b for b in sorted(bs))[:80]
+
+    if sh1["continue_bytes"] is None:
+        ctx.abstain(rid, "byte test of the first scan could not be folded over the 256 byte values", where_fn(s1))
+        return
+    ok1 = sh1["done"] == ("variant", "Numeric") and sh1["continue_bytes"] == digits and sh1["fail"][0] == "call"
     ctx.check(rid, ok1, s1.path + "/numeric-stage", where_fn(s1), s1.path, "numeric stage",
               "the first stage does not return Numeric exactly when every byte is an ASCII digit, deferring to the second stage otherwise",
-              found={k: str(v)[:80] for k, v in sh1.items()}, sample="all digits -> Numeric, else second stage")
+              expected="continue on 0-9 only; exhausted -> Numeric",
+              found="continue on {%s}%s; exhausted -> %s; else -> %s" % (
+                  show(sh1["continue_bytes"] ^ digits) and ("0-9 +/- {%s}" % show(sh1["continue_bytes"] ^ digits)) or "0-9", "",
+                  sh1["done"], str(sh1["fail"])[:60]),
+              sample="all digits -> Numeric, else second stage (byte test folded over 256 values)")
     ctx.check(rid, sh1["chain"][-1:] == ["iter"] and strip_refs(sh1["source"]) == ("param", 1) and sh1["skip"] in (("param", 2), ("K", 0, "usize")),
               s1.path + "/covers-input", where_fn(s1), s1.path, "bytes scanned", "the first stage does not scan the input from the given start",
               found=sh1["chain"], sample="input.iter().skip(i)")
@@ -663,19 +706,20 @@ def c09_r2(ctx, f):
         ctx.abstain(rid, "second stage is not a crate function", where_fn(s1))
         return
     ctx.analysed(s2)
-    # second stage restarts at (or before) the first stage's start, on the same input
     ctx.check(rid, strip_refs(args2[0]) == ("param", 1) and (len(args2) < 2 or args2[1] == ("param", 2) or K(args2[1]) == 0), s1.path + "/second-start",
               where_fn(s1), s1.path, "hand-over to the second stage",
-              "the second stage starts later than the first stage did (bytes already accepted as digits are alphanumeric, but bytes before the "
-              "start would be skipped) or scans another slice", found=[expr_str(x, s1) for x in args2], sample="second stage scans from the same start")
-    sh2 = _scan_shape(s2, {"encode::is_qr_alphanumeric"})
-    if not sh2:
+              "the second stage starts later than the first stage did or scans another slice", found=[expr_str(x, s1) for x in args2],
+              sample="second stage scans from the same start")
+    sh2 = _scan_shape(s2, f)
+    if not sh2 or sh2["continue_bytes"] is None:
         ctx.abstain(rid, "second scan not in the recognised shape", where_fn(s2))
         return
-    ok2 = sh2["done"] == ("variant", "Alphanumeric") and sh2["fail"] == ("variant", "Byte") and sh2["pred"] == "encode::is_qr_alphanumeric"
+    ok2 = sh2["done"] == ("variant", "Alphanumeric") and sh2["fail"] == ("variant", "Byte") and sh2["continue_bytes"] == alnum
     ctx.check(rid, ok2, s2.path + "/alnum-stage", where_fn(s2), s2.path, "alphanumeric stage",
               "the second stage does not return Alphanumeric exactly when every byte is in the 45-character set and Byte otherwise",
-              found={k: str(v)[:80] for k, v in sh2.items()}, sample="all alphanumeric -> Alphanumeric, else Byte")
+              expected="continue on the 45-character set only",
+              found="differs on {%s}; exhausted -> %s; else -> %s" % (show(sh2["continue_bytes"] ^ alnum), sh2["done"], sh2["fail"]),
+              sample="all alphanumeric -> Alphanumeric, else Byte (byte test folded over 256 values)")
     ctx.check(rid, sh2["chain"][-1:] == ["iter"] and strip_refs(sh2["source"]) == ("param", 1) and sh2["skip"] in (("param", 2), ("K", 0, "usize")),
               s2.path + "/covers-input", where_fn(s2), s2.path, "bytes scanned", "the second stage does not scan the input from the given start",
               found=sh2["chain"], sample="input.iter().skip(i)")
